@@ -4,7 +4,7 @@
 (* about what was observed (snapshots taken through the task loop, datagrams    *)
 (* on the simulated wire, callbacks), plus history variables kept here.         *)
 EXTENDS Naturals, Integers, Sequences, FiniteSets, TLC, Json
-CONSTANTS D, F,        \* disconnected / failed timeouts of the run (ms)
+CONSTANTS D, F, H,     \* disconnected / failed timeouts, transaction lifetime of the run (ms)
           TraceFile, NatMap, Reach, LocA, Lite, CheckPrio, MaxReq,
           Check        \* names of the predicates this run judges
 Tr == ndJsonDeserialize(TraceFile)
@@ -25,10 +25,16 @@ VARIABLES l, pre, cur, ev,
           acc,        \* history: per agent, highest valued nomination a controlled agent had to accept: [v, l, r] (v = 0 none)
           acked,      \* history: per agent, highest nomination value whose success response a controlling agent has processed
           iss,        \* history: highest nomination value issued through the API and its pair [v, l, r]
+          nomKind,    \* history: per agent, {<<l, r, v>>} = value (0 = plain USE-CANDIDATE) of the last nominating request received on pair (l, r)
+          ledger,     \* history: per agent, the harness's own record of outstanding requests {<<tid, dst, at, gen>>}
+          pled,       \* ledger before the last step
           base        \* history: per agent, [key, tally, cnt] = selected pair (l,r), harness tallies and that pair's counters when it became selected
-vars == <<l, pre, cur, ev, idmap, answered, ucAnswered, nomRx, chk, ltc, acc, acked, iss, base>>
+vars == <<l, pre, cur, ev, idmap, answered, ucAnswered, nomRx, chk, ltc, acc, acked, iss, base, ledger, pled, nomKind>>
 
 E0 == [a \in Agents |-> {}]
+CountIn(s, x) == Cardinality({k \in 1..Len(s) : s[k] = x})
+NewMsgs(e, o) == {x \in {e.post.net[k] : k \in 1..Len(e.post.net)} :
+                     CountIn(e.post.net, x) > CountIn(o.net, x) - (IF e.ev \in {"Deliver", "Vanish", "Drop"} /\ x = e.m THEN 1 ELSE 0)}
 SelKeyOf(o, a) == IF o[a].sel = 0 \/ ~\E p \in Rng(o[a].pairs) : p.id = o[a].sel THEN <<>>
                   ELSE LET p == CHOOSE p \in Rng(o[a].pairs) : p.id = o[a].sel IN <<p.l, p.r>>
 NoNom == [v |-> 0, l |-> "", r |-> ""]
@@ -44,6 +50,7 @@ Init == /\ l = 2 /\ pre = Tr[1].post /\ cur = Tr[1].post /\ ev = Tr[1]
         /\ answered = E0 /\ ucAnswered = E0 /\ nomRx = E0
         /\ chk = [a \in Agents |-> 0 - 1] /\ ltc = [a \in Agents |-> "Unknown"]
         /\ acc = [a \in Agents |-> NoNom] /\ acked = [a \in Agents |-> 0] /\ iss = NoNom
+        /\ ledger = E0 /\ pled = E0 /\ nomKind = E0
         /\ base = [a \in Agents |-> [key |-> <<>>, tally |-> <<0, 0, 0, 0>>, cnt |-> <<0, 0, 0, 0>>]]
 Step == /\ l <= Len(Tr) /\ l' = l + 1 /\ pre' = cur /\ cur' = Tr[l].post /\ ev' = Tr[l]
         /\ LET e == Tr[l]  reset == e.ev = "Reset" IN
@@ -79,6 +86,19 @@ Step == /\ l <= Len(Tr) /\ l' = l + 1 /\ pre' = cur /\ cur' = Tr[l].post /\ ev' 
                          /\ \E x \in Rng(cur[a].pend) : x.tid = e.m.tid /\ x.dst = e.m.src /\ x.nom > acked[a]
                       THEN (CHOOSE x \in Rng(cur[a].pend) : x.tid = e.m.tid /\ x.dst = e.m.src).nom
                  ELSE acked[a]]
+           /\ nomKind' = [a \in Agents |->
+                 IF reset \/ (e.ev = "Restart" /\ e.ag = a) THEN {}
+                 ELSE IF IsDeliverOf(e) /\ RcvOf(e) = a /\ e.m.kind = "req" /\ (e.m.uc \/ e.m.nom # 0) /\ SocketOpenOf(e, cur) /\ ReqAuthOKOf(e, cur)
+                         /\ e.m.rolea # cur[a].role
+                      THEN {x \in nomKind[a] : ~(x[1] = Unwire(e.m.dst) /\ x[2] = e.m.src)} \cup {<<Unwire(e.m.dst), e.m.src, e.m.nom>>}
+                 ELSE nomKind[a]]
+           /\ pled' = ledger
+           /\ ledger' = [a \in Agents |->
+                 IF reset \/ (e.ev = "Restart" /\ e.ag = a) \/ (e.post[a].conn = "Failed" /\ cur[a].conn # "Failed") THEN {}
+                 ELSE LET sent == {<<x.tid, x.dst, e.post.now, cur[a].gen>> : x \in {y \in NewMsgs(e, cur) : y.kind = "req" /\ y.from = a /\ e.ev # "Dup"}}
+                          used == IF IsDeliverOf(e) /\ RcvOf(e) = a /\ e.m.kind = "succ" /\ SocketOpenOf(e, cur) /\ RespAuthOKOf(e, cur) /\ KnownIn(cur, a, e.m.src)
+                                  THEN {x \in ledger[a] : x[1] = e.m.tid} ELSE {}
+                      IN (ledger[a] \ used) \cup sent]
            /\ base' = [a \in Agents |->
                  LET k == SelKeyOf(e.post, a) IN
                  IF k = base[a].key /\ ~reset THEN base[a] ELSE [key |-> k, tally |-> e.post[a].tally, cnt |-> e.post[a].selCnt]]
@@ -142,6 +162,8 @@ C02_IndicationOnlyLiveness ==
 \* changes at most the liveness timestamp of the (known) source and the set of outstanding transactions
 \* (expiry, consumption of the matching id)
 Matched == \E x \in Rng(pre[Rcv].pend) : x.tid = ev.m.tid /\ x.dst = ev.m.src
+\* the same question answered from the harness's own ledger: sent by this generation to exactly this address, less than H ago
+Outstanding == \E x \in pled[Rcv] : x[1] = ev.m.tid /\ x[2] = ev.m.src /\ x[4] = pre[Rcv].gen /\ cur.now - x[3] < H
 C02_UnmatchedResponse ==
   (IsDeliver /\ ev.m.kind = "succ" /\ RespAuthOK /\ Known(pre, Rcv, ev.m.src) /\ ~Matched) =>
      /\ Emitted = {} /\ NoCallbacks(Rcv)
@@ -151,7 +173,11 @@ C02_UnmatchedResponse ==
 C02_MatchedOnly ==
   (IsDeliver /\ ev.m.kind = "succ") =>
      \A p \in Rng(cur[Rcv].pairs) : \A qq \in Rng(pre[Rcv].pairs) :
-        (p.id = qq.id /\ p.st # qq.st) => (Matched /\ RespAuthOK /\ p.l = Unwire(ev.m.dst) /\ p.r = ev.m.src)
+        (p.id = qq.id /\ p.st # qq.st) => (Outstanding /\ RespAuthOK /\ p.l = Unwire(ev.m.dst) /\ p.r = ev.m.src)
+\* a response that answers nothing outstanding never changes the selection or the connection state either
+C02_StaleResponseInert ==
+  (IsDeliver /\ ev.m.kind = "succ" /\ ~Outstanding) =>
+     (cur[Rcv].sel = pre[Rcv].sel /\ cur[Rcv].conn = pre[Rcv].conn /\ cur[Rcv].pairs = pre[Rcv].pairs /\ Emitted = {})
 \* ---------------------------------------------------------------- C03
 Full(a) == ~Lite[a]
 SelChanged(a) == cur[a].sel # 0 /\ SelKey(cur, a) # SelKey(pre, a)
@@ -164,13 +190,14 @@ C03_SelValidated ==
 C03_LiteSelectsOnNomination ==
   \A a \in Agents : (SelChanged(a) /\ Lite[a] /\ cur[a].role = "controlled" /\ ev.ev # "Reset") =>
      (<<cur[a].gen>> \o SelKey(cur, a)) \in nomRx[a]
-C03_NoUCFromControlled == \A x \in Emitted : (x.kind = "req" /\ x.rolea = "controlled") => (~x.uc /\ x.nom = 0)
+C03_NoUCFromControlled == \A x \in Emitted : (x.kind = "req" /\ x.from \in Agents /\ x.rolea = "controlled") => (~x.uc /\ x.nom = 0)
 C03_LiteNeverRequests == \A x \in Emitted : (x.kind = "req" /\ x.from \in Agents /\ Lite[x.from] /\ x.rolea = "controlled") => FALSE
-\* plain USE-CANDIDATE never moves the selection of a priority-checking controlled agent to a lower-priority pair
+\* plain USE-CANDIDATE never moves the selection of a priority-checking controlled agent to a lower-priority pair:
+\* the nomination that counts is the last nominating request received on the newly selected pair
 C03_NoDowngrade ==
   \A a \in Agents :
      (SelChanged(a) /\ pre[a].sel # 0 /\ cur[a].role = "controlled" /\ pre[a].role = "controlled" /\ (Full(a) \/ CheckPrio[a])
-      /\ ev.ev = "Deliver" /\ ev.m.nom = 0 /\ cur[a].lastNom = 0
+      /\ ev.ev = "Deliver" /\ <<SelKey(cur, a)[1], SelKey(cur, a)[2], 0>> \in nomKind[a]
       /\ \E p \in Rng(cur[a].pairs) : p.id = pre[a].sel) =>
         ~PrLess(PairOf(cur, a, cur[a].sel).pr, PairOf(cur, a, pre[a].sel).pr)
 \* ---------------------------------------------------------------- C05
@@ -199,6 +226,8 @@ C06_NoResidue == (ev.ev = "Restart" => Empty(cur, ev.ag))
                  /\ \A a \in Agents : (cur[a].conn = "Failed" /\ pre[a].conn # "Failed") => Empty(cur, a)
 StripPr(ps) == [k \in 1..Len(ps) |-> [id |-> ps[k].id, l |-> ps[k].l, r |-> ps[k].r, st |-> ps[k].st, nom |-> ps[k].nom,
                                       nos |-> ps[k].nos, reqs |-> ps[k].reqs, pr |-> ps[k].pr]]
+\* Restart of an agent that is still New (gathered and signalled, not started) leaves nothing of the previous generation
+C06_NoResidueNew == (ev.ev = "Reset") => \A a \in Agents : ev.preResidue[a] = <<0, 0, 0, 0, 0>>
 C06_SupersessionPreserves ==
   (ev.ev = "AddRemote" /\ \E r \in Rng(pre[ev.ag].remotes) : r.addr = ev.c.addr /\ r.typ = "prflx" /\ ev.c.typ # "prflx") =>
      /\ StripPr(cur[ev.ag].pairs) = StripPr(pre[ev.ag].pairs) /\ cur[ev.ag].sel = pre[ev.ag].sel
@@ -318,6 +347,7 @@ P(n) == CASE n = "C01_Mirror" -> C01_Mirror []
         n = "C02_IndicationOnlyLiveness" -> C02_IndicationOnlyLiveness []
         n = "C02_UnmatchedResponse" -> C02_UnmatchedResponse []
         n = "C02_MatchedOnly" -> C02_MatchedOnly []
+        n = "C02_StaleResponseInert" -> C02_StaleResponseInert []
         n = "C03_SelValidated" -> C03_SelValidated []
         n = "C03_LiteSelectsOnNomination" -> C03_LiteSelectsOnNomination []
         n = "C03_NoUCFromControlled" -> C03_NoUCFromControlled []
@@ -332,6 +362,7 @@ P(n) == CASE n = "C01_Mirror" -> C01_Mirror []
         n = "C06_IdStable" -> C06_IdStable []
         n = "C06_RemotesDeduped" -> C06_RemotesDeduped []
         n = "C06_NoResidue" -> C06_NoResidue []
+        n = "C06_NoResidueNew" -> C06_NoResidueNew []
         n = "C06_SupersessionPreserves" -> C06_SupersessionPreserves []
         n = "C04_TimingRule" -> C04_TimingRule []
         n = "C04_CheckingDeadline" -> C04_CheckingDeadline []
@@ -356,7 +387,7 @@ P(n) == CASE n = "C01_Mirror" -> C01_Mirror []
         n = "C07_ConnCounters" -> C07_ConnCounters []
         n = "C07_PairCounters" -> C07_PairCounters
 Report == \A n \in Check : P(n) \/ PrintT(<<"VIOL", n, l - 1>>)
-AllPredicates == {"C01_Mirror", "C01_Converges", "C01_NeverWithoutPath", "C02_BadRequestInert", "C02_BadResponseInert", "C02_ErrorInert", "C02_IndicationOnlyLiveness", "C02_UnmatchedResponse", "C02_MatchedOnly", "C03_SelValidated", "C03_LiteSelectsOnNomination", "C03_NoUCFromControlled", "C03_LiteNeverRequests", "C03_NoDowngrade", "C05_Rule", "C05_OppositeAtEnd", "C06_UniqueIds", "C06_NoDupPairs", "C06_PairsFromCurrent", "C06_SelListed", "C06_IdStable", "C06_RemotesDeduped", "C06_NoResidue", "C06_SupersessionPreserves", "C04_TimingRule", "C04_CheckingDeadline", "C04_LifecycleStrict", "C04_Lifecycle", "C04_FC04Seen", "C04_NotifiedIsActual", "C04_SelWhileConnected", "C04_ReleasedOnFailed", "C20_AcceptMonotone", "C20_StaleIgnored", "C20_SwitchOnValid", "C20_SwitchWhenValidated", "C20_ControllingKeepsNewest", "C20_QuiescentAgreement", "C20_ValueOnWire", "C20_OnlyControllingEnabled", "C07_WriteRoute", "C07_NoSTUNWrite", "C07_ReadOnlyKnown", "C07_DataInert", "C07_ConnCounters", "C07_PairCounters"}
+AllPredicates == {"C01_Mirror", "C01_Converges", "C01_NeverWithoutPath", "C02_BadRequestInert", "C02_BadResponseInert", "C02_ErrorInert", "C02_IndicationOnlyLiveness", "C02_UnmatchedResponse", "C02_MatchedOnly", "C02_StaleResponseInert", "C03_SelValidated", "C03_LiteSelectsOnNomination", "C03_NoUCFromControlled", "C03_LiteNeverRequests", "C03_NoDowngrade", "C05_Rule", "C05_OppositeAtEnd", "C06_UniqueIds", "C06_NoDupPairs", "C06_PairsFromCurrent", "C06_SelListed", "C06_IdStable", "C06_RemotesDeduped", "C06_NoResidue", "C06_NoResidueNew", "C06_SupersessionPreserves", "C04_TimingRule", "C04_CheckingDeadline", "C04_LifecycleStrict", "C04_Lifecycle", "C04_FC04Seen", "C04_NotifiedIsActual", "C04_SelWhileConnected", "C04_ReleasedOnFailed", "C20_AcceptMonotone", "C20_StaleIgnored", "C20_SwitchOnValid", "C20_SwitchWhenValidated", "C20_ControllingKeepsNewest", "C20_QuiescentAgreement", "C20_ValueOnWire", "C20_OnlyControllingEnabled", "C07_WriteRoute", "C07_NoSTUNWrite", "C07_ReadOnlyKnown", "C07_DataInert", "C07_ConnCounters", "C07_PairCounters"}
 Done == IF TLCGet("stats").diameter = Len(Tr) THEN TRUE
         ELSE Print(<<"MONITOR_STOPPED_AT", TLCGet("stats").diameter, Len(Tr)>>, FALSE)
 ====
